@@ -104,6 +104,7 @@ fn facts_for(c: &Case, id: usize) -> Value {
     };
     m.insert("id".into(), Value::Int(1000 + id as i128));
     m.insert("vi".into(), Value::Int(5 + id as i128));
+    m.insert("word".into(), Value::String(format!("word{}", id % 40)));
     m.insert("when".into(), Value::String(format!("20{:02}-0{}-1{}T0{}:00:00Z", 10 + id % 80, 1 + id % 9, id % 9, id % 9)));
     Value::Map(m)
 }
@@ -144,9 +145,21 @@ fn gen_case(bytes: &[u8]) -> Case {
         };
         rules.push((format!("b{i}"), e));
     }
+    // symbols: a long list of strings (membership tests against symbol tables on a freshly built ruleset)
+    let mut symbols = BTreeMap::new();
+    let words: Vec<Value> = (0..40).map(|i| Value::String(format!("word{i}"))).collect();
+    symbols.insert("words".to_string(), Value::Vec(words));
+    symbols.insert("limit".to_string(), Value::Int(7));
+    if d.bool() {
+        rules.insert(0, ("member".to_string(), Expr::Vec(vec![
+            Expr::contains(Expr::symbol("words"), Expr::reff("word")),
+            Expr::contains(Expr::symbol("words"), Expr::value("nope".to_string())),
+            Expr::gt(Expr::reff("vi"), Expr::symbol("limit")),
+        ])));
+    }
     let n = *d.pick(&[2usize, 4, 16]);
     Case {
-        spec: SetSpec { rules, fns, symbols: BTreeMap::new(), suspend: 1 + d.below(3) as u32 },
+        spec: SetSpec { rules, fns, symbols, suspend: 1 + d.below(3) as u32 },
         n,
         raw_threads: d.bool(),
         repeat: *d.pick(&[1usize, 1, 3, 20]),
